@@ -6,6 +6,7 @@ import (
 	"fmt"
 	"go/token"
 	"go/types"
+	"sort"
 	"strings"
 
 	"golang.org/x/tools/go/ssa"
@@ -338,16 +339,41 @@ func (x *Exec) contractCall(st *State, fr *Frame, con *FuncContract, callee *ssa
 	for _, a := range con.Assigns {
 		full[a] = true
 	}
-	if callee != nil && !con.Extern {
+	if callee != nil && !con.Extern && con.Trusted == "" {
 		if s, ok := x.mods[callee]; ok {
 			ms.union(s)
 		}
+	}
+	if con.Trusted != "" && !con.Extern {
+		x.C.used["assumed contract of /repo function "+con.Key+" ("+con.Trusted+")"] = true
 	}
 	if con.Extern && !con.Pure && !con.HasAssigns {
 		// an extern without a frame clause is assumed not to write modelled memory (listed as an assumption)
 		x.C.used["frame-assumed:"+con.Key] = true
 	}
 	x.applyMods(st, pre, ms, full)
+	type decLink struct {
+		ref string
+		t   types.Type
+	}
+	var links []decLink
+	for _, dn := range con.Decodes {
+		for i, n := range pnames {
+			if n == dn && i < len(args) {
+				var src ssa.Value
+				ai := i
+				if cc.IsInvoke() {
+					ai = i - 1
+				}
+				if ai >= 0 && ai < len(cc.Args) {
+					src = cc.Args[ai]
+				}
+				if ref, t := x.decodeInto(st, pre, args[i], src, fr); t != nil {
+					links = append(links, decLink{ref, t})
+				}
+			}
+		}
+	}
 	// results
 	rt := resultType(cc)
 	var res Val
@@ -366,6 +392,21 @@ func (x *Exec) contractCall(st *State, fr *Frame, con *FuncContract, callee *ssa
 			}
 		} else {
 			rvals = []Val{res}
+		}
+	}
+	// what a decoder produced is a deterministic function of its source (first argument) and the target type
+	if len(links) > 0 && len(args) > 0 {
+		if srcT, ok := x.termOf(st, args[0]); ok {
+			okTerm := "true"
+			if n := len(rvals); n > 0 && isErrorType(rvals[n-1].T) {
+				okTerm = fmt.Sprintf("(= %s nilI)", rvals[n-1].Term)
+			}
+			for _, l := range links {
+				okF, valF := x.decodedFuncs(l.t, x.C.sortOf(args[0].T))
+				cur := x.loadLoc(st, &Loc{Kind: locHeap, Ref: l.ref, Root: l.t})
+				st.assume(fmt.Sprintf("(= %s (%s %s))", okTerm, okF, srcT))
+				st.assume(fmt.Sprintf("(=> %s (= %s (%s %s)))", okTerm, cur.Term, valF, srcT))
+			}
 		}
 	}
 	rnames := con.ResNames
@@ -554,4 +595,120 @@ func (x *Exec) inlineCall(st *State, fr *Frame, callee *ssa.Function, args []Val
 		}
 	}
 	x.runBlock(st, nf, callee.Blocks[0], nil)
+}
+
+// decodeInto models a library decoder writing through an interface argument that boxes a pointer
+// (xml.Decoder.Decode(v), Prop.Decode(v), ...): the pointee is overwritten with arbitrary values of its
+// type, and everything reachable from it may be freshly allocated with arbitrary contents.
+// decodedFuncs: uninterpreted "what decoding source s into a T yields" (value and success)
+func (x *Exec) decodedFuncs(t types.Type, srcSort string) (okF, valF string) {
+	m := mangle(t.String()) + "_from_" + mangle(srcSort)
+	okF, valF = "decodedOk_"+m, "decoded_"+m
+	x.C.decl(fmt.Sprintf("(declare-fun %s (%s) Bool)", okF, srcSort))
+	x.C.decl(fmt.Sprintf("(declare-fun %s (%s) %s)", valF, srcSort, x.C.sortOf(t)))
+	return
+}
+
+func (x *Exec) decodeInto(st *State, pre *State, arg Val, src ssa.Value, fr *Frame) (string, types.Type) {
+	var pt *types.Pointer
+	var ref string
+	switch s := src.(type) {
+	case *ssa.MakeInterface:
+		if p, ok := s.X.Type().Underlying().(*types.Pointer); ok {
+			pt = p
+			ref = fmt.Sprintf("(i_val %s)", arg.Term)
+			if pv, ok := st.regs[cellKey{fr.id, s.X}]; ok && pv.Loc == nil && pv.Term != "" {
+				ref = pv.Term
+			}
+		}
+	}
+	if pt == nil {
+		if p, ok := arg.T.Underlying().(*types.Pointer); ok && arg.Loc == nil {
+			pt = p
+			ref = arg.Term
+		}
+	}
+	if pt == nil {
+		// dynamic type unknown: anything may have been written
+		x.abstr["decoder target of unknown dynamic type"] = true
+		st.taint = true
+		ms := newModSet()
+		ms.all = true
+		x.applyMods(st, pre, ms, nil)
+		return "", nil
+	}
+	// heaps of every type reachable from the pointee: fresh objects with arbitrary contents
+	seen := map[string]bool{}
+	var heaps []string
+	var walk func(t types.Type, depth int)
+	walk = func(t types.Type, depth int) {
+		if depth > 8 || isTimeType(t) || isByteSlice(t) {
+			return
+		}
+		k := t.String()
+		if seen[k] {
+			return
+		}
+		seen[k] = true
+		switch u := t.Underlying().(type) {
+		case *types.Pointer:
+			if isStructT(u.Elem()) {
+				st := u.Elem().Underlying().(*types.Struct)
+				for i := 0; i < st.NumFields(); i++ {
+					heaps = append(heaps, x.C.heapFieldName(u.Elem(), i))
+					x.heapSort[x.C.heapFieldName(u.Elem(), i)] = x.C.heapFieldSort(u.Elem(), i)
+				}
+			} else {
+				heaps = append(heaps, x.C.heapCellName(u.Elem()))
+				x.heapSort[x.C.heapCellName(u.Elem())] = fmt.Sprintf("(Array Int %s)", x.C.sortOf(u.Elem()))
+			}
+			walk(u.Elem(), depth+1)
+		case *types.Slice:
+			heaps = append(heaps, x.C.elemHeapName(u.Elem()))
+			x.heapSort[x.C.elemHeapName(u.Elem())] = x.C.elemHeapSort(u.Elem())
+			walk(u.Elem(), depth+1)
+		case *types.Struct:
+			for i := 0; i < u.NumFields(); i++ {
+				walk(u.Field(i).Type(), depth+1)
+			}
+		case *types.Map:
+			v, d := x.C.mapHeapNames(u)
+			vs, ds := x.mapSorts(u)
+			heaps = append(heaps, v, d)
+			x.heapSort[v], x.heapSort[d] = vs, ds
+			walk(u.Elem(), depth+1)
+		}
+	}
+	walk(pt, 0)
+	// allocation frontier moves
+	a := x.newSym(st, "alloc", "Int")
+	st.assume(fmt.Sprintf("(>= %s %s)", a, st.alloc))
+	st.alloc = a
+	own := map[string]bool{}
+	if isStructT(pt.Elem()) {
+		u := pt.Elem().Underlying().(*types.Struct)
+		for i := 0; i < u.NumFields(); i++ {
+			own[x.C.heapFieldName(pt.Elem(), i)] = true
+		}
+	} else {
+		own[x.C.heapCellName(pt.Elem())] = true
+	}
+	sort.Strings(heaps)
+	for _, name := range heaps {
+		srt := x.heapSort[name]
+		old := x.heap(st, name, srt)
+		x.havocHeap(st, name)
+		x.closedAt(st, name)
+		nw := st.heaps[name]
+		if own[name] {
+			st.assume(fmt.Sprintf("(forall ((r Int)) (! (=> (and (< r %s) (not (= r %s))) (= (select %s r) (select %s r))) :pattern ((select %s r))))", pre.alloc, ref, nw, old, nw))
+			// type invariant of the overwritten fields
+			if hi, ok := x.C.heapVal[name]; ok {
+				st.assume(x.typeInv(hi.t, fmt.Sprintf("(select %s %s)", nw, ref), 2))
+			}
+		} else {
+			st.assume(fmt.Sprintf("(forall ((r Int)) (! (=> (< r %s) (= (select %s r) (select %s r))) :pattern ((select %s r))))", pre.alloc, nw, old, nw))
+		}
+	}
+	return ref, pt.Elem()
 }
